@@ -241,6 +241,51 @@ TRIGGERS = {
             'tested with != instead of "is not"',
             'an object with __eq__/__ne__ passed through a keyword-only '
             'parameter: its comparison dunder runs on every call'),
+ 'S4-C11': ('checkpep484typevar.py: TypeVar-bound validation calls issubclass() '
+            'on any class bound',
+            'a generic subscripted by a class where the TypeVar is bounded by a '
+            'runtime-checkable protocol with a data member: bare TypeError '
+            '("Protocols with non-method members don\'t support '
+            'issubclass()")'),
+ 'S4-C12': ('codemain.py: "is the pith an identifier" replaced by an identity '
+            'test between two expressions',
+            'Annotated[object, IsEqual[..] ...] as first member of a union of '
+            'Annotated members only, below a container: the pith variable is '
+            'rebound to the comparison\'s boolean'),
+ 'S4-C13': ('redpep673.py: typing.Self resolves to cls_stack[0] (outermost '
+            'class)',
+            'a method returning Self in a class nested in a decorated class, '
+            'decorated through the outer class'),
+ 'S4-C14': ('utilcacheclear.py: clear_caches() no longer clears the resolved-'
+            'type table of reference proxies',
+            'a long-lived callable annotated type["mod.W"], called, then the '
+            'decorated class W hot-reloaded: the current class is rejected'),
+ 'S4-C15': ('clawpkgmain.py: the skip-list update moved out of claw_lock',
+            'two threads registering packages whose skip names share a parent '
+            'that is not in the trie yet, preempted between test and store: a '
+            'skip entry is lost'),
+ 'S4-C16': ('clawastscopebefore.py: the module-scope beforelist map is stored '
+            'on the process-wide object',
+            'module A importing a beforelisted decorator compiled before '
+            'module B that uses an unrelated decorator of the same name, in '
+            'one process; B\'s shape is then cached'),
+ 'S4-C17': ('_confoverrides.py: the complex-override conflict test hangs on '
+            '"a float override exists"',
+            'is_pep484_tower=True + hint_overrides {float: float|int, '
+            'complex: str}: accepted, memoised under the tower singleton'),
+ 'S4-C18': ('redpep484604union.py: class members of a union inside '
+            'type[...] keep their unreduced form',
+            'type[float | str] (any depth) under the tower / an override of a '
+            'member: the rewrite is lost inside type[...]'),
+ 'S4-C19': ('doorpep586.py: Literal membership scan returns at the first '
+            '==-equal object',
+            'literals listing ==-equal objects of different types '
+            '(Literal[0, False]): not reflexive, not equal to themselves'),
+ 'S4-C20': ('datacodepep484585.py: the value-only mapping template bound to '
+            'the key-only one',
+            'a mapping hint with ignorable key and checked value '
+            '(dict[object, str]): the first KEY is checked against the value '
+            'hint'),
  'S3-C11': ('pep593.py is_hint_pep593_beartype: the isinstance() test on the '
             'first metadatum moved out of the try/except',
             'Annotated[...] whose first metadatum raises when its __class__ is '
@@ -463,6 +508,36 @@ HISTORY = {
            'ordinary parameter; != on a spy was logged as "eq", which is '
            'allowed); recorder through every parameter kind, __ne__ logged '
            'apart and never allowed - caught',
+ 'S4-C11': 'MISSED at first contact (no TypeVar bounded by a protocol); '
+           'Badge[Person] / BadgeList[Person] over TN bound=HasName (runtime-'
+           'checkable protocol with a data member) added to the shared grammar '
+           '- caught by C11 and C01',
+ 'S4-C12': 'MISSED at first contact (no union of Annotated members below a '
+           'container); three such placements, with a twin member satisfied '
+           'only by what equals a sentinel - caught',
+ 'S4-C13': 'MISSED at first contact (no typing.Self); fluent methods '
+           '"-> typing.Self: return self" at every nesting depth (the member '
+           'route, which cannot spell Self, leaves that return unannotated) - '
+           'caught',
+ 'S4-C14': 'INCONCLUSIVE at first contact (load) / would miss: no type[...] '
+           'forward reference in the hotreload family; _wf4 / _wf5 added - '
+           'caught',
+ 'S4-C15': 'MISSED at first contact (registrations carried no skip lists); '
+           'own registrations with skip names under the shared fresh parent, '
+           'registration-storm programs, a final re-check of skip entries, '
+           'and a lockset monitor: every mutation of a registry trie node '
+           'must happen under claw_lock (fires in every run, no interleaving '
+           'needed) - caught',
+ 'S4-C16': 'MISSED by C16 (one module per process) and by C05 at first '
+           'contact; C05 runs many hooked modules in one process: untracked '
+           'control decorators now reuse the very names other modules bind to '
+           'beforelisted ones - caught by C05',
+ 'S4-C17': 'MISSED at first contact (overrides of the tower\'s own keys were '
+           'avoided); equal and contrary overrides of float / complex, model '
+           'of the conflict rule refined - caught',
+ 'S4-C18': 'MISSED at first contact (type[...] never held float / complex); '
+           'the tower now reaches into type[...] in the model and in the '
+           'by-hand rewrite - caught',
  'S3-C11': 'MISSED at first contact (hostile objects were used as hints, never '
            'as PEP 593 metadata); directed block: metadata whose inspection '
            'raises (dead weakref.proxy, unbound lazy proxy, raising '
